@@ -301,7 +301,50 @@ func multOf(t *Term) uint {
 }
 
 // eqValues: structural Go equality as a Bool term.
-func (p *Path) eqValues(x, y Value) *Term {
+func (p *Path) eqValues(x, y Value) *Term { return p.eqValuesMode(x, y, false) }
+
+// deepEq: value equality of decoded messages (math.Int/Dec by numeric value, slices elementwise).
+func (p *Path) deepEq(x, y Value) *Term { return p.eqValuesMode(x, y, true) }
+
+func (p *Path) eqValuesMode(x, y Value, deep bool) *Term {
+	if deep {
+		switch a := x.(type) {
+		case VBig:
+			if b, ok := y.(VBig); ok {
+				if a.Nil || b.Nil {
+					return BoolC(a.Nil && b.Nil)
+				}
+				return Eq(a.T, b.T)
+			}
+		case VDec:
+			if b, ok := y.(VDec); ok {
+				if a.Nil || b.Nil {
+					return BoolC(a.Nil && b.Nil)
+				}
+				return Eq(a.T, b.T)
+			}
+		case VSlice:
+			if b, ok := y.(VSlice); ok {
+				// protobuf does not distinguish nil from empty
+				if a.Len != b.Len {
+					return tFalse
+				}
+				ea, eb := a.elems(), b.elems()
+				var cs []*Term
+				for i := range ea {
+					cs = append(cs, p.eqValuesMode(ea[i], eb[i], true))
+				}
+				return And(cs...)
+			}
+		case VBlob:
+			if b, ok := y.(VBlob); ok {
+				if !types.Identical(a.Ty, b.Ty) {
+					return tFalse
+				}
+				return p.eqValuesMode(a.Val, b.Val, true)
+			}
+		}
+	}
 	switch a := x.(type) {
 	case VInt:
 		if b, ok := y.(VInt); ok {
@@ -383,7 +426,7 @@ func (p *Path) eqValues(x, y Value) *Term {
 		if !types.Identical(a.Ty, b.Ty) {
 			return tFalse
 		}
-		return p.eqValues(a.Val, b.Val)
+		return p.eqValuesMode(a.Val, b.Val, deep)
 	case VErr:
 		if b, ok := y.(VErr); ok {
 			return BoolC(a.Root == b.Root && a.Msg == b.Msg)
@@ -392,7 +435,7 @@ func (p *Path) eqValues(x, y Value) *Term {
 		if b, ok := y.(*VStruct); ok && len(a.F) == len(b.F) {
 			var cs []*Term
 			for i := range a.F {
-				cs = append(cs, p.eqValues(a.F[i], b.F[i]))
+				cs = append(cs, p.eqValuesMode(a.F[i], b.F[i], deep))
 			}
 			return And(cs...)
 		}
@@ -400,7 +443,7 @@ func (p *Path) eqValues(x, y Value) *Term {
 		if b, ok := y.(*VArray); ok && len(a.E) == len(b.E) {
 			var cs []*Term
 			for i := range a.E {
-				cs = append(cs, p.eqValues(a.E[i], b.E[i]))
+				cs = append(cs, p.eqValuesMode(a.E[i], b.E[i], deep))
 			}
 			return And(cs...)
 		}
